@@ -2,6 +2,7 @@ package props
 
 import (
 	"astverif/crcgate"
+	"astverif/layout"
 	"astverif/tables"
 )
 
@@ -31,4 +32,37 @@ func c09(c *Ctx) {
 	tables.T1(c.P, r)
 	r.Floor("T1", "truth-table obligations imported into C09", len(r.Obls)-before, 20)
 	r.Count("t1_obligations", len(r.Obls)-before)
+	c09Lengths(c)
+}
+
+// c09Lengths is rule (e): section_length = the bytes emitted after it, proven level by level (assume-guarantee:
+// each level uses the contract of the level below, which is an obligation of its own): descriptor body → descriptor
+// with header → descriptor loop → PAT/PMT body → section with syntax header and CRC_32.
+func c09Lengths(c *Ctx) {
+	r := c.R
+	ck := layout.New(c.P)
+	pairs, err := descriptorPairs(c)
+	if err != nil {
+		r.Unknown("A2", "dispatch", "", "descriptor dispatch tables could not be derived: "+err.Error())
+	}
+	r.Floor("A2", "descriptor calculator/writer pairs", len(pairs), 24)
+	ck.A2(r, pairs)
+	ck.A2(r, level0Pairs(c))
+	ck1 := layout.New(c.P)
+	ck1.IP.Abstract = level1Abstract(c)
+	ck1.A2(r, level1Pairs(c))
+	ck1.ReportNarrow(r)
+	ck2 := layout.New(c.P)
+	ck2.IP.Abstract = level2Abstract(c)
+	ck2.A2(r, level2Pairs(c))
+	ck2.ReportNarrow(r)
+	ck3 := layout.New(c.P)
+	ck3.IP.Abstract = level3Abstract(c)
+	ck3.A2(r, level3Pairs(c))
+	ck3.ReportNarrow(r)
+	for _, k := range []*layout.Checker{ck, ck1, ck2, ck3} {
+		for _, d := range k.IP.Diag {
+			r.Unknown("A0", "diag/"+d, "", d)
+		}
+	}
 }
